@@ -53,6 +53,51 @@ Definition lookup_name {A : Type} (tbl : list (string * A)) (unknown : err) (s :
 Inductive mix_choice : Set := MixNatural | MixAnthropogenic.
 Inductive mix_stream : Set := StreamNatural | StreamAnthropogenic.
 
+(* ---------------- SwitchDispersalKernel and eligibility ---------------- *)
+(* Tests of the if-chains of SwitchDispersalKernel (switch_kernel.hpp) and of the
+   supports_kernel functions, as the translator writes them down:
+   ScType k   `dispersal_kernel_type_ == DispersalKernelType::k` (`type == ...` in
+              supports_kernel), ScStoch  `dispersal_stochasticity_`. *)
+Inductive switch_cond : Set :=
+| ScType (k : kernel_type)
+| ScStoch
+| ScNot (c : switch_cond)
+| ScAnd (a b : switch_cond)
+| ScOr (a b : switch_cond)
+| ScTrue.
+
+Fixpoint switch_cond_holds (c : switch_cond) (ty : kernel_type) (stoch : bool) : bool :=
+  match c with
+  | ScType k => kernel_type_eqb ty k
+  | ScStoch => stoch
+  | ScNot a => negb (switch_cond_holds a ty stoch)
+  | ScAnd a b => andb (switch_cond_holds a ty stoch) (switch_cond_holds b ty stoch)
+  | ScOr a b => orb (switch_cond_holds a ty stoch) (switch_cond_holds b ty stoch)
+  | ScTrue => true
+  end.
+
+(* An if / else-if chain (or a sequence of early returns) in source order: the
+   first test that holds decides; `dflt` is the final else. *)
+Fixpoint first_match {A : Type} (tbl : list (switch_cond * A)) (dflt : A)
+    (ty : kernel_type) (stoch : bool) : A :=
+  match tbl with
+  | [] => dflt
+  | (c, a) :: tl => if switch_cond_holds c ty stoch then a else first_match tl dflt ty stoch
+  end.
+
+(* What is_cell_eligible(row, col) of a kernel class returns: a constant, or
+   network_.has_node_at(row, col). *)
+Inductive elig_rule : Set := EligConst (b : bool) | EligNodeAt.
+(* node_at: the network has a node at the source cell *)
+Definition elig_eval (r : elig_rule) (node_at : bool) : bool :=
+  match r with EligConst b => b | EligNodeAt => node_at end.
+
+(* What a branch of SwitchDispersalKernel::is_cell_eligible returns: a constant
+   or <member kernel>.is_cell_eligible(row, col); and of supports_kernel: a
+   constant or <kernel class>::supports_kernel(type). *)
+Inductive elig_src : Set := SeConst (b : bool) | SeMember (c : kernel_class).
+Inductive supports_src : Set := SsConst (b : bool) | SsClass (c : kernel_class).
+
 (* ---------------- real-valued part ---------------- *)
 Local Open Scope R_scope.
 
